@@ -1543,3 +1543,41 @@ def itr3_collapse_loops_only_step(P, R, L, rule="ITR-3"):
         R.check(rule, fn + "|moves-only-by-%s" % allowed, bool(moves) and not other, where(b), "the inner iterator is moved only by %s()" % allowed,
                 "other movements: %s" % [(c.name or "")[len(MI):] + "@%s" % c.line for c in other] if other else "%d %s() sites" % (len(moves), allowed))
     R.floor(rule, "collapse loops examined", n, 2)
+
+
+# ------------------------------------------------------------------------------------------- BLKR-1 the block reader parses the whole entry area
+def blkr1_reader_consumes_every_entry(P, R, L, rule="BLKR-1"):
+    """BlockReader::deserialize_entries walks the entry area of a block with a byte cursor.  It goes on while the cursor is below
+    the end of the area (`cursor < buf.len()`, nothing added to either side): prefix compression also covers the 9-byte key
+    trailer, so an entry can be as short as 4 bytes and any `at least N bytes left` condition silently drops a short last
+    entry of a block (a tombstone with a shared trailer: the lookup falls through to the older file)."""
+    fn = "tables::block::BlockReader::<K>::deserialize_entries"
+    b = P.body(fn)
+    if b is None:
+        return R.missing_anchor(rule, fn)
+    R.analysed(b)
+    is_len = lambda os_: any(o.kind == "call" and (o.name or "").endswith("::len") and o.site is not None and o.site.args and
+                             any(x.kind == "param" and x.name == 1 for x in origins(b, o.site.args[0])) for o in os_)
+    conds, bad = [], []
+    for c in comparisons(b):
+        if not in_cycle(b, c.bb):
+            continue
+        lo, ro = c.lhs_origins(), c.rhs_origins()
+        for (a_os, l_os, a_op, op) in ((lo, ro, c.lhs, c.op), (ro, lo, c.rhs, {"lt": "gt", "le": "ge", "gt": "lt", "ge": "le", "eq": "eq", "ne": "ne"}[c.op])):
+            if not is_len(l_os) or is_len(a_os):
+                continue
+            # does this comparison decide whether the loop goes on?  (one of its edges leaves the cycle)
+            leaves = [t for t in c.true_t + c.false_t if not (c.bb in b.reachable(t))]
+            if not leaves:
+                continue
+            conds.append(c)
+            if op != "lt":
+                bad.append("the loop goes on under `cursor %s len` (line %s)" % (op, c.line))
+            if any(o.kind in ("binop", "call") for o in a_os if not (o.kind == "call" and False)):
+                if any(o.kind == "binop" for o in a_os):
+                    # the cursor itself is `cursor += n` (a binop): only a comparison operand that is a fresh expression counts
+                    l_ = _plain_local(a_op)
+                    if l_ is None or not b.local_name(_copy_root(b, l_)):
+                        bad.append("the cursor side of the loop condition is an expression, not the cursor (line %s)" % c.line)
+    R.check(rule, fn + "|goes-on-while-cursor-below-the-end", bool(conds) and not bad, where(b),
+            "the entry loop runs while `cursor < buf.len()`, with nothing added to the cursor or taken from the length", "; ".join(sorted(set(bad))) or "loop conditions %d" % len(conds))
